@@ -415,11 +415,12 @@ pub fn eval_scenario(s: &Scenario, with_recorder: bool) -> (Vec<(String, String)
         None
     };
     // the same request with the quaternion of every second pose negated (the same rotations): a successful plan must
-    // satisfy the same clauses. Always where bisection can occur (tight cost limit with recursion allowed), on every
+    // satisfy the same clauses. On half of the scenarios where bisection can occur (tight cost limit with recursion allowed), on every
     // scenario in the thorough tier. Success itself is not promised by the statement: an outcome that differs between
     // the two spellings is recorded in the signature, not judged
     let mut sign_note = "";
-    if (s.cost < 2 && s.depth > 0) || THOROUGH.load(std::sync::atomic::Ordering::Relaxed) {
+    let thorough = THOROUGH.load(std::sync::atomic::Ordering::Relaxed);
+    if thorough || (s.cost < 2 && s.depth > 0 && (s.start + s.stroke + s.obstacle + s.step_m) % 2 == 0) {
         match plan_negated(s, &b) {
             Err(m) => fails.push(("C12/panic/negated-quaternions".to_string(), m)),
             Ok(other) => {
